@@ -178,9 +178,10 @@ def sched_workload(flows, n_max, exact=True, unique_offsets=False, static=False,
         for i, (g, f, s, p, k) in enumerate(items):
             t = t + g
             tt = t
-            if unique_offsets and t > 0:
-                tt = t + (i + 1) / 65536      # unique low bits: no arrival ever coincides with a transmission end
-                k = 0
+            if unique_offsets:
+                k = 0                             # early injection only: the t=0 batch is complete before the first decision
+                if t > 0:
+                    tt = t + (i + 1) / 65536      # unique low bits: no arrival ever coincides with a transmission end
             out.append([tt, f, s, p, k])
         if unique_offsets:
             out.sort(key=lambda w: w[0])
